@@ -214,6 +214,7 @@ def run_workers(work, binary, prop, tier, seed0, total_runs, budget_s, extra_arg
     chunk = int(os.environ.get("VERIF_CHUNK", "0")) or (1500 if binary.endswith("-race") else 20000)
 
     def one(i):
+        hangs = [0]
         res = RunSet(keep_all)
         seed = seed0 + i
         left = per
@@ -250,6 +251,19 @@ def run_workers(work, binary, prop, tier, seed0, total_runs, budget_s, extra_arg
             if p.returncode == 3:  # tainted: restart after the last seed
                 if not got:
                     raise Trouble("worker tainted without output: " + p.stderr.decode()[-2000:])
+            elif p.returncode == 2 and b"WATCHDOG" in p.stderr and hangs[0] < 2:
+                # a worker stopped making progress: keep the whole dump, and run the same seed again in a fresh
+                # process (one tape = one execution, so a hang that belongs to the seed comes back and is then fatal)
+                hangs[0] += 1
+                dump = os.path.join(os.environ.get("VERIF_EVIDENCE_DIR", os.path.join(VERIF, "evidence")), "trouble-%s-watchdog.log" % prop)
+                try:
+                    with open(dump, "ab") as fh:
+                        fh.write(("==== worker %d seed %d (after %d completed runs)\n" % (i, seed + got * jobs, got)).encode())
+                        fh.write(p.stderr[-400000:])
+                except OSError:
+                    pass
+                log("worker %d: watchdog at seed %d, retrying it in a fresh process (dump in %s)" % (i, seed + got * jobs, dump))
+                res.feats["harness_watchdog_retries"] += 1
             elif p.returncode != 0:
                 raise Trouble("worker exit %d: %s" % (p.returncode, p.stderr.decode("utf-8", "replace")[-4000:]))
             elif got < n:
